@@ -7,6 +7,7 @@ import (
 	"fmt"
 	"math/big"
 	"sort"
+	"strings"
 
 	"github.com/cloudflare/circl/internal/zzverif/lib"
 	"github.com/cloudflare/circl/vdaf/prio3/arith"
@@ -77,43 +78,60 @@ type binMsg interface {
 	UnmarshalBinary([]byte) error
 }
 
+// recvInto decodes a message the way a server holding ONE receive buffer does:
+// the bytes are decoded from a scratch copy which is overwritten right after
+// (the next message arrives in the same buffer).  A decoded object that still
+// looks into its source then changes under the protocol's feet.
+func recvInto(m interface{ UnmarshalBinary([]byte) error }, b []byte) error {
+	var c []byte
+	if b != nil {
+		c = make([]byte, len(b)) // an empty message stays empty and non-nil
+		copy(c, b)
+	}
+	err := m.UnmarshalBinary(c)
+	for i := range c {
+		c[i] ^= 0x5A
+	}
+	return err
+}
+
 func (in *Inst[M, A, V, E]) decPS(b []byte) (prio3.PublicShare, error) {
 	var ps prio3.PublicShare
 	ps.New(&in.pr)
-	err := ps.UnmarshalBinary(b)
+	err := recvInto(&ps, b)
 	return ps, err
 }
 
 func (in *Inst[M, A, V, E]) decIS(aggID uint8, b []byte) (prio3.InputShare[V, E], error) {
 	var is prio3.InputShare[V, E]
 	is.New(&in.pr, uint(aggID))
-	err := is.UnmarshalBinary(b)
+	err := recvInto(&is, b)
 	return is, err
 }
 
 func (in *Inst[M, A, V, E]) decPrepShare(b []byte) (*prio3.PrepShare[V, E], error) {
 	x := new(prio3.PrepShare[V, E]).New(&in.pr)
-	return x, x.UnmarshalBinary(b)
+	return x, recvInto(x, b)
 }
 
 func (in *Inst[M, A, V, E]) decPrepState(b []byte) (*prio3.PrepState[V, E], error) {
 	x := new(prio3.PrepState[V, E]).New(&in.pr)
-	return x, x.UnmarshalBinary(b)
+	return x, recvInto(x, b)
 }
 
 func (in *Inst[M, A, V, E]) decPrepMsg(b []byte) (*prio3.PrepMessage, error) {
 	x := new(prio3.PrepMessage).New(&in.pr)
-	return x, x.UnmarshalBinary(b)
+	return x, recvInto(x, b)
 }
 
 func (in *Inst[M, A, V, E]) decOut(b []byte) (*prio3.OutShare[V, E], error) {
 	x := new(prio3.OutShare[V, E]).New(&in.pr)
-	return x, x.UnmarshalBinary(b)
+	return x, recvInto(x, b)
 }
 
 func (in *Inst[M, A, V, E]) decAgg(b []byte) (*prio3.AggShare[V, E], error) {
 	x := new(prio3.AggShare[V, E]).New(&in.pr)
-	return x, x.UnmarshalBinary(b)
+	return x, recvInto(x, b)
 }
 
 // roundTrip checks marshal -> unmarshal into a fresh value -> marshal.
@@ -124,7 +142,7 @@ func (in *Inst[M, A, V, E]) roundTrip(kind string, orig, fresh binMsg) []byte {
 		in.viol("marshal-roundtrip", kind, lib.D("step", "marshal", "err", err))
 		return nil
 	}
-	if err = fresh.UnmarshalBinary(b0); err != nil {
+	if err = recvInto(fresh, b0); err != nil {
 		in.viol("marshal-roundtrip", kind, lib.D("step", "unmarshal", "err", err, "bytes", b0))
 		return b0
 	}
@@ -874,9 +892,33 @@ func (in *Inst[M, A, V, E]) Alterations(r *lib.Rng, hw *Wire) []Alt {
 		add("input-share:leader-meas:low-bit", true, -1, func(w *Wire) { w.IS[0][mo+e*sz] ^= 1 })
 		add("input-share:leader-meas:plus-one", true, -1, func(w *Wire) { f.addTo(w.IS[0], mo+e*sz, big.NewInt(1)) })
 		add("input-share:leader-meas:non-canonical", true, -1, func(w *Wire) { copy(w.IS[0][mo+e*sz:], f.EncRaw(f.P)) })
+		// the largest encodable integer, p+1, and - when the element is small
+		// enough for it to fit - the alias x+p of the genuine element: all are
+		// >= p and must be refused by the decoder itself (a decoder that reduces
+		// them lets two byte strings stand for one share)
+		e2 := r.Intn(ml / sz)
+		add("input-share:leader-meas:non-canonical:all-ones", true, -1, func(w *Wire) {
+			for k := 0; k < sz; k++ {
+				w.IS[0][mo+e2*sz+k] = 0xFF
+			}
+		})
+		add("input-share:leader-meas:non-canonical:p-plus-one", true, -1, func(w *Wire) {
+			copy(w.IS[0][mo+e2*sz:], f.EncRaw(new(big.Int).Add(f.P, big.NewInt(1))))
+		})
+		add("input-share:leader-meas:non-canonical:alias-of-genuine-element", true, -1, func(w *Wire) {
+			full := new(big.Int).Lsh(big.NewInt(1), uint(8*sz))
+			for k := 0; k < ml/sz; k++ {
+				x := leInt(w.IS[0][mo+k*sz : mo+(k+1)*sz])
+				if y := new(big.Int).Add(x, f.P); y.Cmp(full) < 0 {
+					copy(w.IS[0][mo+k*sz:], f.EncRaw(y))
+					return
+				}
+			}
+		})
 	}
 	{
 		e := r.Intn(pl / sz)
+		add("proof-share:leader:non-canonical", true, -1, func(w *Wire) { copy(w.IS[0][po+e*sz:], f.EncRaw(new(big.Int).Add(f.P, big.NewInt(int64(r.Intn(3)))))) })
 		add("proof-share:leader:bitflip", true, -1, func(w *Wire) { flipIn(r, w.IS[0], po+e*sz, sz) })
 		add("proof-share:leader:plus-one", true, -1, func(w *Wire) { f.addTo(w.IS[0], po+e*sz, big.NewInt(1)) })
 		add("proof-share:leader:minus-one", true, -1, func(w *Wire) { f.addTo(w.IS[0], po+e*sz, big.NewInt(-1)) })
@@ -1042,6 +1084,14 @@ func (in *Inst[M, A, V, E]) RunAlterations(r *lib.Rng, rep *Report[M], vk prio3.
 			}
 		}
 		lib.Count("alt:" + a.Class)
+		if len(prod) == 0 && strings.Contains(a.Class, "non-canonical") && !strings.HasPrefix(o.FirstStage(), "decode") {
+			// refused later (the value changed) - but an element >= p got past the decoder
+			d := w.dump()
+			d["alteration"] = a.Class
+			d["first_refusing_stage"] = o.FirstStage()
+			in.viol("non-canonical-element-decoded", a.Class, d)
+			continue
+		}
 		if len(prod) == 0 {
 			lib.Count("alt-rejected-at:" + a.Class + "@" + o.FirstStage())
 			if a.Demand {
